@@ -204,47 +204,81 @@ func stripRev(d string) string {
 	return string(out)
 }
 
+// groups builds the seed- and tier-determined list of groups. A group id names its scratch
+// directories, seeds its PRNG and is what a replay selects.
 func groups(r *ev.Run) []group {
 	all := r.Thorough()
-	// the option sets of the binary TLS groups use names derived from the seed inside the group
-	tlsBin := func(id, kind string, mk func(rng *rand.Rand) serverOpts, control bool) group {
-		return group{id: id, run: func(r *ev.Run, rng *rand.Rand) {
-			runTLSBinary(r, tlsBinGroup{id: id, kind: kind, opts: mk(rng), control: control}, rng, all)
-		}}
+	type def func(id string) group
+	tok := func(flavour, style string) def {
+		return func(id string) group { return tokenGroup(id, flavour, style, all) }
 	}
-	gs := []group{
-		tokenGroup("tok-leader-alnum", "leader", "alnum", all),
-		tokenGroup("tok-follower-nested", "follower", "nested", all),
-		tlsBin("tlsbin-leader-ca+cca+cn", "leader", func(rng *rand.Rand) serverOpts {
-			return serverOpts{CA: true, ClientCertAuth: true, AllowedCN: randCN(rng)}
-		}, true),
-		tlsBin("tlsbin-leader-ca+host-dns", "leader", func(rng *rand.Rand) serverOpts {
-			return serverOpts{CA: true, AllowedHostname: randHost(rng)}
-		}, false),
-		{id: "tlsin-0", run: func(r *ev.Run, rng *rand.Rand) { runTLSInproc(r, "tlsin-0", rng, all) }},
+	tlsBin := func(kind string, mk func(rng *rand.Rand) serverOpts, control bool) def {
+		return func(id string) group {
+			return group{id: id, run: func(r *ev.Run, rng *rand.Rand) {
+				runTLSBinary(r, tlsBinGroup{id: id, kind: kind, opts: mk(rng), control: control}, rng, all)
+			}}
+		}
 	}
+	tlsIn := func(id string) group {
+		return group{id: id, run: func(r *ev.Run, rng *rand.Rand) { runTLSInproc(r, id, rng, all) }}
+	}
+	opts := func(cca bool, name string) func(rng *rand.Rand) serverOpts {
+		return func(rng *rand.Rand) serverOpts {
+			o := serverOpts{CA: true, ClientCertAuth: cca}
+			switch name {
+			case "cn":
+				o.AllowedCN = randCN(rng)
+			case "host-dns":
+				o.AllowedHostname = randHost(rng)
+			case "host-ip":
+				o.AllowedHostname = randIP(rng)
+			}
+			return o
+		}
+	}
+	type named struct {
+		id string
+		mk def
+	}
+	list := []named{
+		{"tok-leader-alnum", tok("leader", "alnum")},
+		{"tok-follower-nested", tok("follower", "nested")},
+		{"tlsbin-leader-ca+cca+cn", tlsBin("leader", opts(true, "cn"), true)},
+		{"tlsbin-leader-ca+host-dns", tlsBin("leader", opts(false, "host-dns"), false)},
+		{"tlsbin-follower-ca+cn", tlsBin("follower", opts(false, "cn"), true)},
+		{"tlsin", tlsIn},
+	}
+	reps := 1
 	if all {
-		gs = append(gs,
-			tokenGroup("tok-leader-special", "leader", "special", all),
-			tokenGroup("tok-leader-spaced", "leader", "spaced", all),
-			tokenGroup("tok-leader-nested", "leader", "nested", all),
-			tokenGroup("tok-leader-casefold", "leader", "casefold", all),
-			tokenGroup("tok-follower-alnum", "follower", "alnum", all),
-			tokenGroup("tok-follower-special", "follower", "special", all),
-			tlsBin("tlsbin-leader-ca", "leader", func(rng *rand.Rand) serverOpts { return serverOpts{CA: true} }, false),
-			tlsBin("tlsbin-leader-ca+cn", "leader", func(rng *rand.Rand) serverOpts { return serverOpts{CA: true, AllowedCN: randCN(rng)} }, false),
-			tlsBin("tlsbin-leader-ca+cca+host-ip", "leader", func(rng *rand.Rand) serverOpts {
-				return serverOpts{CA: true, ClientCertAuth: true, AllowedHostname: randIP(rng)}
-			}, false),
-			tlsBin("tlsbin-follower-ca+cca+cn", "follower", func(rng *rand.Rand) serverOpts {
-				return serverOpts{CA: true, ClientCertAuth: true, AllowedCN: randCN(rng)}
-			}, true),
-			tlsBin("tlsbin-follower-ca+host-dns", "follower", func(rng *rand.Rand) serverOpts {
-				return serverOpts{CA: true, AllowedHostname: randHost(rng)}
-			}, false),
-			group{id: "tlsin-1", run: func(r *ev.Run, rng *rand.Rand) { runTLSInproc(r, "tlsin-1", rng, all) }},
-			group{id: "tlsin-2", run: func(r *ev.Run, rng *rand.Rand) { runTLSInproc(r, "tlsin-2", rng, all) }},
+		reps = 3 // every group again with other tokens / names / PKIs
+		list = append(list,
+			named{"tok-leader-special", tok("leader", "special")},
+			named{"tok-leader-spaced", tok("leader", "spaced")},
+			named{"tok-leader-nested", tok("leader", "nested")},
+			named{"tok-leader-casefold", tok("leader", "casefold")},
+			named{"tok-follower-alnum", tok("follower", "alnum")},
+			named{"tok-follower-special", tok("follower", "special")},
+			named{"tok-follower-casefold", tok("follower", "casefold")},
+			named{"tlsbin-leader-ca", tlsBin("leader", opts(false, ""), false)},
+			named{"tlsbin-leader-ca+cca", tlsBin("leader", opts(true, ""), false)},
+			named{"tlsbin-leader-ca+cn", tlsBin("leader", opts(false, "cn"), false)},
+			named{"tlsbin-leader-ca+cca+host-dns", tlsBin("leader", opts(true, "host-dns"), false)},
+			named{"tlsbin-leader-ca+cca+host-ip", tlsBin("leader", opts(true, "host-ip"), false)},
+			named{"tlsbin-leader-ca+host-ip", tlsBin("leader", opts(false, "host-ip"), false)},
+			named{"tlsbin-follower-ca+cca+cn", tlsBin("follower", opts(true, "cn"), false)},
+			named{"tlsbin-follower-ca+host-dns", tlsBin("follower", opts(false, "host-dns"), false)},
+			named{"tlsbin-follower-ca", tlsBin("follower", opts(false, ""), false)},
 		)
+	}
+	var gs []group
+	for k := 0; k < reps; k++ {
+		for _, n := range list {
+			id := n.id
+			if k > 0 {
+				id = fmt.Sprintf("%s.r%d", n.id, k)
+			}
+			gs = append(gs, n.mk(id))
+		}
 	}
 	return gs
 }
@@ -253,6 +287,13 @@ func main() {
 	r := ev.Start("C17", "exploration")
 	installSignalCleanup()
 	_ = scratchDir()
+	// global watchdog: every single wait in this driver has its own deadline; this one only
+	// guards against the unforeseen. Expiry is "check broken", never a verdict.
+	time.AfterFunc(25*time.Minute, func() {
+		fmt.Println("INCONCLUSIVE property=C17 global watchdog (25 min) expired")
+		killAll()
+		os.Exit(2)
+	})
 	code := func() int {
 		defer func() {
 			killAll()
@@ -335,6 +376,11 @@ func run(r *ev.Run) int {
 	}
 	wg.Wait()
 	flushSamples(r)
+	unjMu.Lock()
+	if len(unj) > 0 {
+		r.Extra("unjudged_outcomes", unj)
+	}
+	unjMu.Unlock()
 
 	if r.Replay == "" {
 		nm := int64(len(protectedMethods()))
